@@ -40,12 +40,14 @@ SCHEMAS = {
     "RPA": [("STATUS", '"ACTIVE"', "REQ∧ENUM[ACTIVE,Active,DONE]"), ("LEVEL", '"LOW"', "ENUM[LOW,High,mid]"),
             ("COUNT", "3", "TYPE[NUMBER]"), ("RATIO", "1", "OPT∧TYPE[NUMBER]∧RANGE[0,10]"), ("NAME", '"x"', "REQ∧TYPE[STRING]"),
             ("TAGS", '["a"]', "TYPE[LIST]"), ("FLAG", "true", "TYPE[BOOLEAN]")],
-    "RPB": [("KIND", '"A"', "ENUM[A,AB,ABC]∧REQ"), ("N", "1", "REQ∧TYPE[NUMBER]"), ("M", "1", "TYPE[NUMBER]∧ENUM[1,2]")],
+    "RPB": [("KIND", '"A"', "ENUM[A,AB,ABC]∧REQ"), ("N", "1", "REQ∧TYPE[NUMBER]"), ("M", "1", "TYPE[NUMBER]∧ENUM[1,2]"),
+            ("UNIT", '"mb"', "ENUM[mb,Mb,MB,kb]"), ("TIER", '"aa"', "ENUM[aa,aA,Aa,AA,b]")],      # 3- and 4-way case collisions
 }
-ENUMS = {("RPA", "STATUS"): ENUM_STATUS, ("RPA", "LEVEL"): ENUM_LEVEL, ("RPB", "KIND"): ["A", "AB", "ABC"], ("RPB", "M"): ["1", "2"]}
+ENUMS = {("RPA", "STATUS"): ENUM_STATUS, ("RPA", "LEVEL"): ENUM_LEVEL, ("RPB", "KIND"): ["A", "AB", "ABC"], ("RPB", "M"): ["1", "2"],
+         ("RPB", "UNIT"): ["mb", "Mb", "MB", "kb"], ("RPB", "TIER"): ["aa", "aA", "Aa", "AA", "b"]}
 NUMBER_FIELDS = {("RPA", "COUNT"), ("RPA", "RATIO"), ("RPB", "N"), ("RPB", "M")}
 GOOD = {"RPA": {"STATUS": "ACTIVE", "LEVEL": "LOW", "COUNT": "3", "RATIO": "1", "NAME": '"n"', "TAGS": '["a"]', "FLAG": "true"},
-        "RPB": {"KIND": "A", "N": "1", "M": "1"}}
+        "RPB": {"KIND": "A", "N": "1", "M": "1", "UNIT": "mb", "TIER": "aa"}}
 
 NUMERIC_STRINGS = ["42", " 42 ", "+5", "-7", "1e5", "1E5", "1_000", "1e309", "-1e309", "1e-400", "nan", "inf", "-inf", "0x10", "١٢", "-0",
                    "4.0", "0.1", "0.10000000000000000001", "9007199254740993", "123456789012345678901234567890", "", " ", "abc", "4 2",
@@ -281,6 +283,14 @@ def check(case) -> Res:
             viol.append(dict(descriptor="validate.fix_off:canonical-differs-from-plain-canonicalisation", case=cs, observed=r_off["canonical"], expected=emit(parse_with_warnings(x)[0])))
         if repair_entries_from_tool(r_off.get("repairs", [])):
             viol.append(dict(descriptor="validate.fix_off:repair-logged", case=cs, observed=r_off["repairs"], expected="no REPAIR entries with fix off"))
+    # fix off (explicit or omitted) under EVERY profile: read-only
+    for prof in ("STRICT", "LENIENT", "ULTRA", "lenient"):
+        for kw in ({}, {"fix": False}):
+            rp_ = sl.call("v", content=x, schema=schema, profile=prof, **kw)
+            steps += 1
+            if rp_.get("status") == "success" and (rp_["canonical"] != r_off.get("canonical") or repair_entries_from_tool(rp_.get("repairs", []))):
+                viol.append(dict(descriptor=f"validate.fix_off:profile-{prof.upper()}:changed-or-logged", case=cs, observed=f"{rp_['canonical']!r} {repair_entries_from_tool(rp_.get('repairs', []))}",
+                                 expected="with fix off no value changes and nothing is logged, under every profile"))
     r_on = sl.call("v", content=x, schema=schema, fix=True)
     steps += 1
     if r_on.get("status") == "success":
